@@ -30,6 +30,8 @@ const SHORT_TEXTS: u64 = 1 + 8 + 64 + 512 + 4096;
 const UNIT_SEQS: u64 = (6 + 36 + 216 + 1296 + 7776) * 2;
 const UNIT_ALPHA: [u16; 6] = [0xD83D, 0xDE00, 0x0061, 0xDBFF, 0xDC00, 0x000A];
 const N_SCALARS: u64 = 0x110000;
+// sizes (MiB as UTF-8) of the texts decoded through from_path in all four encodings
+const GIANT_TEXTS: [i64; 4] = [3, 5, 9, 12];
 
 impl C10 {
     pub fn new(corpus: Arc<Corpus>) -> C10 {
@@ -80,7 +82,7 @@ impl Scenario for C10 {
         "exploration"
     }
     fn rule(&self) -> String {
-        "Three families. scalar-sweep: all 1,114,112 code points (surrogates skipped; 64 per plan) as `Title:a<c>b` / `Artist:<c>` metadata, decoded in UTF-8, UTF-8+BOM, UTF-16LE+BOM, UTF-16BE+BOM: all four results identical (exhaustive over single scalars in both tiers). equiv: bundled and generated texts (non-ASCII metadata) in the four encodings under one random delivery schedule, random decoder: identical fingerprints. corrupt: storage with injected invalid UTF-8, lone surrogates, odd tail bytes or UTF-16 truncation (every truncation length of every small file's UTF-16 transcodings in the thorough tier): result == decode(UTF-8 BOM + std lossy conversion of the payload). Also enumerated: every sequence of <= 5 UTF-16 code units over {high, low, highest high, lowest low, 'a', LF} in LE and BE against the std lossy conversion; whole lines of CR/LF/NUL-byte characters. Round 8: lines longer than 64 KiB in only some encodings; tricky-text corpus files. Round 10: texts beginning with U+FEFF (three BOM-marked encodings); bursts of invalid bytes. Round 13: thousands of leading blank lines. distinct_nontrivial = distinct plan hashes that are not plain-ASCII UTF-8 without BOM.".into()
+        "Three families. scalar-sweep: all 1,114,112 code points (surrogates skipped; 64 per plan) as `Title:a<c>b` / `Artist:<c>` metadata, decoded in UTF-8, UTF-8+BOM, UTF-16LE+BOM, UTF-16BE+BOM: all four results identical (exhaustive over single scalars in both tiers). equiv: bundled and generated texts (non-ASCII metadata) in the four encodings under one random delivery schedule, random decoder: identical fingerprints. corrupt: storage with injected invalid UTF-8, lone surrogates, odd tail bytes or UTF-16 truncation (every truncation length of every small file's UTF-16 transcodings in the thorough tier): result == decode(UTF-8 BOM + std lossy conversion of the payload). Also enumerated: every sequence of <= 5 UTF-16 code units over {high, low, highest high, lowest low, 'a', LF} in LE and BE against the std lossy conversion; whole lines of CR/LF/NUL-byte characters. Round 8: lines longer than 64 KiB in only some encodings; tricky-text corpus files. Round 10: texts beginning with U+FEFF (three BOM-marked encodings); bursts of invalid bytes. Round 13: thousands of leading blank lines. After round 13: texts of 3, 5, 9 and 12 MiB (twice that as UTF-16) through from_path on the real file system in all four encodings, both tiers. distinct_nontrivial = distinct plan hashes that are not plain-ASCII UTF-8 without BOM.".into()
     }
     fn assumptions(&self) -> Vec<String> {
         vec![
@@ -96,6 +98,7 @@ impl Scenario for C10 {
         self.sweep_plans()
             + self.trunc_plans(tier)
             + UNIT_SEQS
+            + GIANT_TEXTS.len() as u64
             + match tier {
                 Tier::Quick => 60_000,
                 Tier::Thorough => 4_000_000,
@@ -103,6 +106,20 @@ impl Scenario for C10 {
     }
     fn plan(&self, seed: u64, idx: u64, tier: Tier) -> Plan {
         let sw = self.sweep_plans();
+        if idx + GIANT_TEXTS.len() as u64 >= self.total_runs(tier) {
+            // both tiers (the four of them cost under a second): texts of several MiB (assembled at execution time from a filler size and a small tail, so
+            // that the plan stays small) through the real file system — the UTF-16 flavours of the same text are twice as
+            // large, so that a limit counted in bytes bites in some encodings only
+            let k = (self.total_runs(tier) - 1 - idx) as usize;
+            let mut p = Plan::new("C10", "equiv", seed, idx);
+            p.set("giant_mib", GIANT_TEXTS[k]);
+            p.set("dec", 0);
+            p.set("t", crate::transport::T_FROM_PATH);
+            p.data = "[Metadata]\nTitle:the very end \u{4E0A}\u{E9}\nArtist:\u{1F600}\n[HitObjects]\n256,192,1000,1,0\n100,100,2000,2,0,L|200:100,1,100\n".as_bytes().to_vec();
+            p.faults.push("content-text-of-several-MiB".into());
+            p.note = "giant-text".into();
+            return p;
+        }
         if idx >= 40 && idx < STRADDLE_PLANS {
             let mut k = idx - 40;
             let alpha = ['\0', 'o', '[', '\n', '\u{E9}', '\u{4E0A}', '\r', '\u{D0A}'];
@@ -343,6 +360,24 @@ impl Scenario for C10 {
                 Ok(())
             }
             "equiv" => {
+                let assembled;
+                let plan = if plan.has("giant_mib") {
+                    let mib = plan.get("giant_mib").clamp(1, 64) as usize;
+                    let mut d = Vec::with_capacity(mib * 1_048_576 + plan.data.len() + 2048);
+                    d.extend_from_slice(b"osu file format v14\n\n[Events]\n");
+                    let filler = format!("//{}\n", "filler ".repeat(146));
+                    while d.len() < mib * 1_048_576 {
+                        d.extend_from_slice(filler.as_bytes());
+                    }
+                    d.extend_from_slice(&plan.data);
+                    let mut q = plan.clone();
+                    q.data = d;
+                    st.inc("probe.text-of-several-MiB");
+                    assembled = q;
+                    &assembled
+                } else {
+                    plan
+                };
                 let Ok(text) = std::str::from_utf8(&plan.data) else { return Ok(()) };
                 // a text that itself begins with U+FEFF cannot be told from a BOM when stored as plain UTF-8: such texts are
                 // compared across the three BOM-marked encodings only (every second one keeps its U+FEFF, the others lose it)
